@@ -186,6 +186,10 @@ fn affine_case_cmplx(m: usize, n: usize, pat: usize) -> Result<(), String> {
             for c in 0..n {
                 if c != j {
                     ensure!(lg[j + 1][c].real.to_bits() == pz[c].real.to_bits() && lg[j + 1][c].imag.to_bits() == pz[c].imag.to_bits(), "complex evaluation {}: coordinate {} is {:?} but the point has {:?} there: not restored (delta = 2^-{})", j + 1, c, lg[j + 1][c], pz[c], k);
+                } else {
+                    // the step goes into the real part only: an imaginary part -0.0 stays -0.0 (x - 0i and x + 0i lie on different
+                    // sides of every branch cut along the real axis)
+                    ensure!(lg[j + 1][c].real.to_bits() == (pz[c].real + delta).to_bits() && lg[j + 1][c].imag.to_bits() == pz[c].imag.to_bits(), "complex evaluation {}: the perturbed coordinate {} is {:?} but the point has {:?} there and delta = 2^-{}: only the real part may change, by exactly delta", j + 1, c, lg[j + 1][c], pz[c], k);
                 }
             }
         }
@@ -222,7 +226,7 @@ fn smooth_case(m: usize, n: usize, acc: &mut Acc) -> Result<(), String> {
 fn main() {
     let ctx = Ctx::from_args("C18");
     ctx.level("exploration");
-    ctx.rule("E1: every shape (m,n) in 1..6 x 1..6 (m<n, m=n, m>n), affine maps x -> Mx + c with two dyadic matrices, every single-entry deviation of M and every zero column of M (a variable the map ignores), every point of {-4,-1.5,0,0.25,3}^n for n<=3 (thorough n<=5) and 5 corner/centre points above, every step 2^-4..2^-26 and 1e-8, through Mat64::jacobian and Matrix::<Cmplx>::jacobian_cmplx (plus twelve larger shapes up to 64 x 2 / 5 x 33): shape exactly m x n, entries exactly M for dyadic steps (all arithmetic exact) and within rounding for 1e-8; the closure logs its arguments: call 0 is the point, call j+1 is the point with coordinate j increased by exactly delta and all others restored - bit for bit, also for coordinates that x + delta - delta does not give back (2^-60, 4 - 2^-51, an imaginary part -0.0); smooth maps within 10*delta*max|F''|. Non-trivial: m < n, m > n, n >= 2.");
+    ctx.rule("E1: every shape (m,n) in 1..6 x 1..6 (m<n, m=n, m>n), affine maps x -> Mx + c with two dyadic matrices, every single-entry deviation of M and every zero column of M (a variable the map ignores), every point of {-4,-1.5,0,0.25,3}^n for n<=3 (thorough n<=5) and 5 corner/centre points above, every step 2^-4..2^-26 and 1e-8, through Mat64::jacobian and Matrix::<Cmplx>::jacobian_cmplx (plus twelve larger shapes up to 64 x 2 / 5 x 33): shape exactly m x n, entries exactly M for dyadic steps (all arithmetic exact) and within rounding for 1e-8; the closure logs its arguments: call 0 is the point, call j+1 is the point with coordinate j increased by exactly delta and all others restored - bit for bit, also for coordinates that x + delta - delta does not give back (2^-60, 4 - 2^-51, an imaginary part -0.0), and the perturbed coordinate keeps its imaginary part bit for bit; smooth maps within 10*delta*max|F''|. Non-trivial: m < n, m > n, n >= 2.");
     ctx.assume("exactness for dyadic data relies on every product and sum fitting in 53 bits, which holds for the chosen alphabets");
     ctx.threshold("smooth_jacobian_error_over_tolerance", 1.0);
     ctx.require(&["wide (m < n)", "tall (m > n)", "jacobian calls", "shape with m or n above 6"]);
